@@ -433,7 +433,13 @@ func (w *world) judge(res *simkit.RunResult, panics []string, sendPanics int) {
 	}
 	// (8) everything ended
 	if w.leak > 0 && !budget {
-		w.violate("goroutine-leak", leakSig(w.leakStacks), fmt.Sprintf("%d goroutine(s) still alive 5 simulated seconds after the client was closed and every call had returned:\n%s", w.leak, w.leakStacks))
+		if w.leakStacks == "" {
+			// more goroutines than at the start, but none of them in the client or
+			// the harness (runtime helpers come and go): not attributed
+			res.Stats["probe.unattributed-goroutines"] += w.leak
+		} else {
+			w.violate("goroutine-leak", leakSig(w.leakStacks), fmt.Sprintf("%d goroutine(s) still alive 4 simulated seconds after the client was closed and every call had returned:\n%s", w.leak, w.leakStacks))
+		}
 	}
 }
 
